@@ -28,7 +28,9 @@ def demo_dest(d):
     m = re.search(r"((?:[\w.-]+/)+[\w.-]+_test\.go)", "\n".join(src.splitlines()[:60]))
     if not m:
         raise SystemExit("cannot find the demo's destination path in its header")
-    return m.group(1).lstrip("/")
+    dest = m.group(1).lstrip("/")
+    dest = re.sub(r"^tmp/mut-[A-Za-z0-9]+/", "", dest)
+    return dest
 
 
 def confirm(d):
@@ -44,6 +46,9 @@ def confirm(d):
         name = re.findall(r"func (Test\w+)\(", open(os.path.join(d, "demo_test.go")).read())
         runre = "^(" + "|".join(name) + ")$"
         shutil.copyfile(os.path.join(d, "demo_test.go"), os.path.join(wt, dest))
+        extras = [f for f in os.listdir(d) if f.endswith("_test.go") and f != "demo_test.go"]
+        for f in extras:  # shared demo helpers live next to the demo
+            shutil.copyfile(os.path.join(d, f), os.path.join(wt, os.path.dirname(dest), f))
         rc, out = sh("go test -vet=off -count=1 -run '%s' %s" % (runre, pkg), cwd=wt)
         res["demo_passes_without_patch"] = rc == 0
         res["demo_without_tail"] = out[-400:]
@@ -55,6 +60,8 @@ def confirm(d):
         res["demo_fails_with_patch"] = rc != 0
         res["demo_with_tail"] = out[-600:]
         os.remove(os.path.join(wt, dest))
+        for f in extras:
+            os.remove(os.path.join(wt, os.path.dirname(dest), f))
         rc, out = sh("go test -vet=off -count=1 -timeout 25m ./...", cwd=wt)
         res["suite_passes_with_patch"] = rc == 0
         if rc:
@@ -101,7 +108,7 @@ def check(d, props, tier="quick", seed="1"):
 def keep(d, name, extra=None):
     dst = os.path.join("/verif/seeded", name)
     os.makedirs(dst, exist_ok=True)
-    for f in ("patch.diff", "demo_test.go", "meta.json"):
+    for f in ["patch.diff", "demo_test.go", "meta.json"] + [f for f in os.listdir(d) if f.endswith("_test.go") and f != "demo_test.go"]:
         shutil.copyfile(os.path.join(d, f), os.path.join(dst, f))
     if extra:
         m = json.load(open(os.path.join(dst, "meta.json")))
